@@ -44,7 +44,7 @@ Proof. rewrite map_map. apply map_id_ext. apply rn_step2_tau_tau. Qed.
 
 Lemma move2_sym p q : move2 p q -> move2 q p.
 Proof.
-  intros M. destruct M as [pre ci c1 k1 c2 k2 post H1 H2|pre ci c t post H|pre ci c t post H
+  intros M. destruct M as [pre ci c1 k1 c2 k2 post H1 H2|pre ci c b t post H|pre ci c b t post H
                           |pre cb t ci c k post H1 H2|pre cb t ci c k post H1 H2|pre cb t cb' t' post H].
   - pose proof (MSwap2 pre ci c2 k2 c1 k1 (map (rn_step2 (tau (nsec2 pre))) post) H2 H1) as M.
     rewrite map_rn_step2_tau_tau in M. exact M.
@@ -84,12 +84,19 @@ Proof.
   - now apply IH.
 Qed.
 
+Lemma tre_ok2_bank_none n b : tre_ok2 n (bank b None) = true.
+Proof. destruct b; reflexivity. Qed.
+
+Lemma tre_ok2_bank_some n b t : tre_ok2 n (bank b (Some t)) = Nat.ltb t n.
+Proof. destruct b; reflexivity. Qed.
+
 Lemma move2_closed p q : move2 p q -> closed_refs2 p = true -> closed_refs2 q = true.
 Proof.
   unfold closed_refs2. intros M.
-  destruct M as [pre ci c1 k1 c2 k2 post H1 H2|pre ci c t post H|pre ci c t post H
+  destruct M as [pre ci c1 k1 c2 k2 post H1 H2|pre ci c b t post H|pre ci c b t post H
                 |pre cb t ci c k post H1 H2|pre cb t ci c k post H1 H2|pre cb t cb' t' post H];
-    rewrite !closed_from2_app; unfold SetTre, CBank; cbn [closed_from2 tre_ok2 tre_ok Nat.add]; intros C;
+    rewrite !closed_from2_app; unfold SetTre; cbn [closed_from2 Nat.add];
+    rewrite ?tre_ok2_bank_none, ?tre_ok2_bank_some; intros C;
     repeat match goal with K : (_ && _)%bool = true |- _ => apply andb_true_iff in K; destruct K end;
     repeat (apply andb_true_iff; split); try assumption; try reflexivity.
   - now apply refs_below2_tre_ok2.
@@ -135,22 +142,26 @@ Proof. intros H. unfold class_of2. now apply app_nth1. Qed.
 (* ------------------------------------------------------------------ *)
 (** * The moves that lead to the same state *)
 
-Lemma fold_eq2 st0 ci c t : winv2 st0 -> t < List.length (k_secs st0) ->
-  foldM run_step2 [S2Sector ci c (CBank None); SetTre (List.length (k_secs st0)) t] st0 =
-  foldM run_step2 [S2Sector ci c (CBank (Some t))] st0.
+Lemma fold_eq2 st0 ci c b t : winv2 st0 -> t < List.length (k_secs st0) ->
+  foldM run_step2 [S2Sector ci c (bank b None); SetTre (List.length (k_secs st0)) t] st0 =
+  foldM run_step2 [S2Sector ci c (bank b (Some t))] st0.
 Proof.
-  intros [W1 W2 _ _ _ _ _] Ht. unfold SetTre, CBank. cbn [foldM run_step2]. unfold add_sector.
+  intros [W1 W2 _ _ _ _ _] Ht. unfold SetTre. cbn [foldM run_step2]. unfold add_sector.
   destruct (nth_error (k_countries st0) ci) as [[cc cur]|]; [|reflexivity].
-  destruct (existsb _ (k_secs st0)); [reflexivity|]. cbn [market_refs2 market_refs resolve_markets bind].
-  change (construct2 (List.length (k_secs st0)) cc c (COld (CCentralBank (Some t))) [])
-    with (construct2 (List.length (k_secs st0)) cc c (COld (CCentralBank None)) []).
-  destruct (construct2 (List.length (k_secs st0)) cc c (COld (CCentralBank None)) []) as [s|] eqn:E; [|reflexivity]. cbn [bind].
+  destruct (existsb _ (k_secs st0)); [reflexivity|].
+  assert (MR : forall o, market_refs2 (bank b o) = []) by (destruct b; reflexivity). rewrite !MR.
+  cbn [resolve_markets bind].
+  assert (CC : construct2 (List.length (k_secs st0)) cc c (bank b (Some t)) [] =
+               construct2 (List.length (k_secs st0)) cc c (bank b None) []) by (destruct b; reflexivity).
+  rewrite CC.
+  destruct (construct2 (List.length (k_secs st0)) cc c (bank b None) []) as [s|] eqn:E; [|reflexivity]. cbn [bind].
   destruct (construct2_facts _ _ _ _ _ _ E) as (F1 & _).
   rewrite set_treasury2_ok; cbn [k_countries k_default k_ext k_secs k_classes k_sup k_flows k_exo k_ic].
   - f_equal. f_equal. rewrite <- W2.
-    assert (K : class_of2 (k_classes st0 ++ [COld (CCentralBank None)]) (List.length (k_classes st0)) = COld (CCentralBank None)).
+    assert (K : class_of2 (k_classes st0 ++ [bank b None]) (List.length (k_classes st0)) = bank b None).
     { unfold class_of2. rewrite app_nth2 by lia. now rewrite Nat.sub_diag. }
-    rewrite K. cbn [set_tre]. apply set_nth_app_len.
+    rewrite K. assert (ST : set_tre (bank b None) t = bank b (Some t)) by (destruct b; reflexivity).
+    rewrite ST. apply set_nth_app_len.
   - now apply posl_snoc.
   - rewrite app_length. simpl. lia.
   - rewrite app_length. simpl. lia.
@@ -296,7 +307,7 @@ Proof.
   assert (SAME : construct_all2 q = Ok st -> exists st' f, construct_all2 q = Ok st' /\ kstate_rel f st st').
   { intros Hq. exists st, (fun i => i). split; [exact Hq|]. apply kstate_rel_refl.
     now destruct (construct_all2_inv p st CL H) as (W & _). }
-  destruct M as [pre ci c1 k1 c2 k2 post H1 H2|pre ci c t post Ht|pre ci c t post Ht
+  destruct M as [pre ci c1 k1 c2 k2 post H1 H2|pre ci c b t post Ht|pre ci c b t post Ht
                 |pre cb t ci c k post Hc Ht|pre cb t ci c k post Hc Ht|pre cb t cb' t' post Ne];
     pose proof (closed_prefix2 _ _ CL) as CLpre.
   - unfold construct_all2 in H. apply foldM_app in H as (st0 & H0 & H).
@@ -311,12 +322,12 @@ Proof.
       with ([S2Sector ci c2 k2; S2Sector ci c1 k1] ++ map (rn_step2 (tau (nsec2 pre))) post).
     apply foldM_app. exists st2'. split; [exact T|]. rewrite <- L. exact T3.
   - apply SAME.
-    apply (middle_same2 pre [S2Sector ci c (CBank None); SetTre (nsec2 pre) t]
-                        [S2Sector ci c (CBank (Some t))] post); [|exact H].
+    apply (middle_same2 pre [S2Sector ci c (bank b None); SetTre (nsec2 pre) t]
+                        [S2Sector ci c (bank b (Some t))] post); [|exact H].
     intros st0 H0. destruct (construct_all2_inv pre st0 CLpre H0) as (W & _ & L). rewrite <- L. apply fold_eq2; [exact W|lia].
   - apply SAME.
-    apply (middle_same2 pre [S2Sector ci c (CBank (Some t))]
-                        [S2Sector ci c (CBank None); SetTre (nsec2 pre) t] post); [|exact H].
+    apply (middle_same2 pre [S2Sector ci c (bank b (Some t))]
+                        [S2Sector ci c (bank b None); SetTre (nsec2 pre) t] post); [|exact H].
     intros st0 H0. destruct (construct_all2_inv pre st0 CLpre H0) as (W & _ & L). rewrite <- L. symmetry. apply fold_eq2; [exact W|lia].
   - apply SAME.
     apply (middle_same2 pre [SetTre cb t; S2Sector ci c k] [S2Sector ci c k; SetTre cb t] post); [|exact H].
